@@ -512,7 +512,7 @@ class Env:
     def globals(self):
         g = {}
         rt = {'numpy': NumpyShape(), 'evaluable': _EvaluableMod(self), 'slice': Builtin('slice'), 'None': None, 'int': Builtin('int'),
-              'numeric': _Mod({'inv': nps.np_inv}, 'numeric'),
+              'numeric': _Mod({'inv': nps.nutils_numeric_inv}, 'numeric'),
               'poly': _Mod({'eval_outer': poly_eval_outer, 'MulPlan': _plan('MulPlan', _mulplan), 'GradPlan': _plan('GradPlan', _gradplan),
                             'MulVar': _Mod(dict(MULVAR), 'poly.MulVar')}, 'poly'),
               'warnings': _Mod({'warn': lambda ctx, *a: None}, 'warnings')}
